@@ -28,10 +28,11 @@ Theorem C15_window_exact : forall W b12 h,
 Proof. exact rp_window_exact. Qed.
 Print Assumptions C15_window_exact.
 
-(* a message that fails authentication is never accepted and leaves last_seq, the window and
+(* a message that fails authentication (or is turned away before that: undecodable option, no
+   kid, unknown security context) is never accepted and leaves last_seq, the window and
    initial_state exactly as they were, in every reachable state *)
 Theorem C15_forgery_no_trace : forall W b12 s m,
-  rp_reachable W b12 s -> rp_m_auth m = RpForged ->
+  rp_reachable W b12 s -> rp_m_auth m <> RpGenuine ->
   rp_obs (snd (rp_recv rp_fixed W b12 s m)) = rp_obs s /\
   fst (rp_recv rp_fixed W b12 s m) <> RpAccept.
 Proof. exact rp_forgery_no_trace. Qed.
